@@ -1,7 +1,7 @@
 (** Proofs/TrEquiv17.v — PerformanceEvent._check_event (the attrs validator) re-translated from its SOURCE on every
     run (Gen/Tr.v) accepts exactly the events the hand-written model [Perf.ev_valid] of Model/EventsPoly.v accepts. *)
 From Coq Require Import ZArith Bool.
-From NS Require Import Gen.G17 Gen.Tr Model.EventsPoly.
+From NS Require Import Base.TrTac Gen.G17 Gen.Tr Model.EventsPoly.
 Local Open Scope Z_scope.
 
 Lemma tr_performance_event_validate_eq t v a b :
@@ -9,9 +9,10 @@ Lemma tr_performance_event_validate_eq t v a b :
 Proof.
   unfold tr_performance_event_validate, Perf.ev_valid, EV_NOTE_ON, EV_NOTE_OFF, EV_TIME_SHIFT, EV_DURATION,
          EV_VELOCITY, PERF_MIN_PITCH, PERF_MAX_PITCH, MAX_NUM_VELOCITY_BINS.
-  destruct ((t =? 1) || (t =? 2)).
-  - destruct ((0 <=? v) && (v <=? 127)); reflexivity.
-  - destruct (t =? 3); [destruct (0 <=? v); reflexivity|].
-    destruct (t =? 5); [destruct (1 <=? v); reflexivity|].
-    destruct (t =? 4); [destruct ((1 <=? v) && (v <=? 127)); reflexivity|]. reflexivity.
+  first [ solve [ destruct ((t =? 1) || (t =? 2));
+                  [ destruct ((0 <=? v) && (v <=? 127)); reflexivity
+                  | destruct (t =? 3); [destruct (0 <=? v); reflexivity|];
+                    destruct (t =? 5); [destruct (1 <=? v); reflexivity|];
+                    destruct (t =? 4); [destruct ((1 <=? v) && (v <=? 127)); reflexivity|]; reflexivity ] ]
+        | tr_solve ].
 Qed.
